@@ -6,6 +6,8 @@
 //           | uni   <lo*2> <hi*2> <clo*2> <chi*2> <dt> <min> <max>      state (x,y,yaw) SE2 control (v,omega)
 //           | car   <lo*2> <hi*2> <clo*2> <chi*2> <dt> <min> <max>      state (x,y,yaw) SE2 control (v,steer)
 //           | dint  <lo*4> <hi*4> <clo*2> <chi*2> <dt> <min> <max>      state (x,y,vx,vy)   control (ax,ay)
+//           | ode   <lo*2> <hi*2> <clo*2> <chi*2> <dt> <min> <max>      the unicycle through ODEBasicSolver (RK4, 4 sub-steps);
+//                                                                        harness + Python oracle only (no Lean twin)
 //   GOAL  ::= goal (pos | pred | l1) <reals> <thr>     pos: sampleable region, L2 position distance; pred: plain ob::Goal
 //                                                    predicate (no distance); l1: ob::GoalRegion with |dx|+|dy| (not sampleable)
 //   ENV   ::= boxes 2 <k> (<lo*2> <hi*2>)*k                             (planning.h)
@@ -25,7 +27,8 @@
 //        -> two lines: the result (with tree + witnesses), and the `sstplay …` line for the Lean driver
 //   est  SYS ENV starts <n> (<reals>)*n GOAL cell=<bits> k=<n> att=<n> bias=<bits> seed=<n> iters=<n>   -> result + `estplay …`
 //   kpiece SYS ENV starts <n> (<reals>)*n GOAL cell=<bits> nclose=<n> bias=<bits> seed=<n> iters=<n>   -> result + `kpieceplay …`
-//   plan <planner> SYS ENV starts <n> (<reals>)*n goal <reals> <thr> k=<n> bias=<bits> seed=<n> budget=<n>
+//   pdst SYS ENV starts <n> (<reals>)*n GOAL k=<n> bias=<bits> seed=<n> iters=<n>   -> result + `pdstplay …`
+//   plan <planner> SYS ENV starts <n> (<reals>)*n GOAL k=<n> steer=<0|1> bias=<bits> seed=<n> budget=<n>
 //
 // doubles are decimal u64 bit patterns.  The three systems are written here once (SysPropagator) and
 // once in Lean (Driver/Control.lean) with the same operation order.
@@ -35,6 +38,7 @@
 #include <ompl/control/PathControl.h>
 #include <ompl/control/ControlSampler.h>
 #include <ompl/control/SimpleDirectedControlSampler.h>
+#include <ompl/control/ODESolver.h>
 #include <ompl/control/spaces/RealVectorControlSpace.h>
 #include <ompl/control/planners/rrt/RRT.h>
 #include <ompl/control/planners/sst/SST.h>
@@ -51,6 +55,7 @@
 #include <ompl/datastructures/NearestNeighborsLinear.h>
 #include <ompl/util/RandomNumbers.h>
 #include <map>
+#include <algorithm>
 
 namespace oc = ompl::control;
 namespace og = ompl::geometric;
@@ -70,7 +75,7 @@ struct Sys
 
     unsigned nreals() const
     {
-        return (kind == "uni" || kind == "car") ? 3 : nb;
+        return (kind == "uni" || kind == "car" || kind == "ode") ? 3 : nb;
     }
 
     void parse(const Toks &t, size_t &i)
@@ -78,7 +83,7 @@ struct Sys
         if (i >= t.size())
             throw vp::ParseError("sys");
         kind = t[i++];
-        if (kind == "point" || kind == "uni" || kind == "car")
+        if (kind == "point" || kind == "uni" || kind == "car" || kind == "ode")
             nb = 2;
         else if (kind == "dint")
             nb = 4;
@@ -98,15 +103,17 @@ struct Sys
         for (unsigned j = 0; j < nb; ++j)
             if (!(lo[j] < hi[j]))
                 throw vp::ParseError("bounds");
+        // degenerate control bounds (low == high) are legal (RealVectorBounds::check only rejects low > high)
         for (unsigned j = 0; j < 2; ++j)
-            if (!(clo[j] < chi[j]))
+            if (!(clo[j] <= chi[j]))
                 throw vp::ParseError("cbounds");
-        if (!(dt > 1e-9) || minSteps < 1 || minSteps > maxSteps || maxSteps > 1000)
+        // min = max = 0 is legal: control::SpaceInformation::setup() then assumes [1, 10]
+        if (!(dt > 1e-9) || (minSteps < 1 && !(minSteps == 0 && maxSteps == 0)) || minSteps > maxSteps || maxSteps > 1000)
             throw vp::ParseError("durations");
         ob::RealVectorBounds b(nb);
         b.low = lo;
         b.high = hi;
-        if (kind == "uni" || kind == "car")
+        if (kind == "uni" || kind == "car" || kind == "ode")
         {
             auto s = std::make_shared<ob::SE2StateSpace>();
             s->setBounds(b);
@@ -182,6 +189,30 @@ public:
         }
     }
     mutable unsigned long calls = 0;
+
+    // optional steering function of the first-order point (drives SteeredControlSampler through
+    // allocDirectedControlSampler): the straight-line control at the largest admissible speed (control bounds [-1,1])
+    bool steerable = false;
+    bool canSteer() const override
+    {
+        return steerable && kind_ == "point";
+    }
+    bool steer(const ob::State *from, const ob::State *to, oc::Control *result, double &duration) const override
+    {
+        if (!canSteer())
+            return false;
+        const double *a = from->as<ob::RealVectorStateSpace::StateType>()->values;
+        const double *b = to->as<ob::RealVectorStateSpace::StateType>()->values;
+        const double dx = b[0] - a[0], dy = b[1] - a[1];
+        const double L = std::max(fabs(dx), fabs(dy));
+        if (!(L > 0))
+            return false;
+        duration = L;
+        double *u = result->as<oc::RealVectorControlSpace::ControlType>()->values;
+        u[0] = dx / L;
+        u[1] = dy / L;
+        return true;
+    }
 
 private:
     std::string kind_;
@@ -569,7 +600,26 @@ static std::shared_ptr<oc::SpaceInformation> makeSI(const Sys &sys, std::shared_
 {
     auto si = std::make_shared<oc::SpaceInformation>(sys.space, sys.cspace);
     prop = std::make_shared<SysPropagator>(si.get(), sys.kind);
-    si->setStatePropagator(prop);
+    if (sys.kind == "ode")
+    {
+        // the unicycle through the library's ODE machinery: ODEBasicSolver (boost odeint runge_kutta4, integrate_const with
+        // integration step = propagation step / 4) behind ODESolver::getStatePropagator, SO(2) wrap as post-propagation event
+        auto ode = [](const oc::ODESolver::StateType &q, const oc::Control *c, oc::ODESolver::StateType &qdot) {
+            const double *u = c->as<oc::RealVectorControlSpace::ControlType>()->values;
+            qdot.resize(q.size(), 0);
+            qdot[0] = u[0] * cos(q[2]);
+            qdot[1] = u[0] * sin(q[2]);
+            qdot[2] = u[1];
+        };
+        auto solver = std::make_shared<oc::ODEBasicSolver<>>(si, ode, sys.dt / 4.0);
+        auto post = [si](const ob::State *, const oc::Control *, const double, ob::State *result) {
+            si->getStateSpace()->as<ob::SE2StateSpace>()->getSubspace(1)->enforceBounds(
+                result->as<ob::SE2StateSpace::StateType>()->as<ob::SO2StateSpace::StateType>(1));
+        };
+        si->setStatePropagator(oc::ODESolver::getStatePropagator(solver, post));
+    }
+    else
+        si->setStatePropagator(prop);
     si->setPropagationStepSize(sys.dt);
     si->setMinMaxControlDuration(sys.minSteps, sys.maxSteps);
     return si;
@@ -833,6 +883,94 @@ static std::string opStepCount(const Toks &t)
     p.interpolate();
     return "steps=" + std::to_string(p.getControlCount()) + " check=" + (chk ? "1" : "0") + " d=" + vp::bits(d) + " trunc=" +
            std::to_string(static_cast<int>(d / h));
+}
+
+// `pmisc SYS ENV seed=<n> attempts=<n> <n> states controls durations`: the remaining PathControl methods on one path —
+// length(), copy constructor, operator=, print() (its per-control step counts), printAsMatrix() (row count),
+// random(), randomValid(attempts).  Oracle-only (checks/c02.py); one per process (global RNG seed).
+static std::string opPmisc(const Toks &t)
+{
+    size_t i = 1;
+    Sys sys;
+    sys.parse(t, i);
+    vp::Env env;
+    env.parse(t, i);
+    if (env.pdim != 2)
+        throw vp::ParseError("pdim");
+    unsigned long seed = needKV(t, i, "seed");
+    unsigned attempts = needKV(t, i, "attempts");
+    unsigned n = vp::needN(t, i);
+    if (n < 1 || n > 5000 || attempts > 10000)
+        throw vp::ParseError("n");
+    std::vector<std::vector<double>> S, C;
+    std::vector<double> D;
+    for (unsigned j = 0; j < n; ++j)
+        S.push_back(needReals(t, i, sys.nreals()));
+    for (unsigned j = 0; j + 1 < n; ++j)
+        C.push_back(needReals(t, i, 2));
+    for (unsigned j = 0; j + 1 < n; ++j)
+        D.push_back(vp::needF(t, i));
+    if (i != t.size())
+        throw vp::ParseError("trailing");
+    ompl::RNG::setSeed(seed + 1);
+    std::shared_ptr<SysPropagator> prop;
+    auto si = makeSI(sys, prop);
+    si->setStateValidityChecker(std::make_shared<EnvValidity>(si, env));
+    si->setup();
+    oc::PathControl p(si);
+    ob::State *s = si->allocState();
+    oc::Control *c = si->allocControl();
+    for (unsigned j = 0; j < n; ++j)
+    {
+        sys.space->copyFromReals(s, S[j]);
+        if (j == 0)
+            p.append(s);
+        else
+        {
+            c->as<oc::RealVectorControlSpace::ControlType>()->values[0] = C[j - 1][0];
+            c->as<oc::RealVectorControlSpace::ControlType>()->values[1] = C[j - 1][1];
+            p.append(s, c, D[j - 1]);
+        }
+    }
+    si->freeState(s);
+    si->freeControl(c);
+    std::string out = "len=" + vp::bits(p.length());
+    oc::PathControl q(p);
+    out += std::string(" copyeq=") + (showPath(sys, q) == showPath(sys, p) ? "1" : "0");
+    oc::PathControl r(si);
+    r.random();
+    r = q;
+    out += std::string(" assigneq=") + (showPath(sys, r) == showPath(sys, p) ? "1" : "0");
+    std::ostringstream os;
+    p.print(os);
+    out += " print=";
+    {
+        std::string txt = os.str();
+        size_t pos = 0;
+        bool first = true;
+        while ((pos = txt.find("  for ", pos)) != std::string::npos)
+        {
+            pos += 6;
+            size_t e = txt.find(" steps", pos);
+            out += (first ? "" : ",") + txt.substr(pos, e - pos);
+            first = false;
+        }
+        if (first)
+            out += "-";
+    }
+    std::ostringstream om;
+    p.printAsMatrix(om);
+    {
+        std::string txt = om.str();
+        out += " matrix_rows=" + std::to_string(std::count(txt.begin(), txt.end(), '\n'));
+    }
+    oc::PathControl rnd(si);
+    rnd.random();
+    out += " rnd " + showPath(sys, rnd);
+    oc::PathControl rv(si);
+    bool ok = rv.randomValid(attempts);
+    out += std::string(" rv=") + (ok ? "1 " + showPath(sys, rv) : "0");
+    return out;
 }
 
 // ------------------------------------------------------------------------------------------ planners
@@ -1184,7 +1322,7 @@ static std::string opSst(const Toks &t, std::string &playLine)
             j += 2;
             if (sampleable)
                 twin.uniform01();
-            woven += " K " + std::to_string(twin.uniformInt(sys.minSteps, sys.maxSteps));
+            woven += " K " + std::to_string(twin.uniformInt(si->getMinControlDuration(), si->getMaxControlDuration()));
         }
     }
     playLine += " draws" + woven;
@@ -1388,6 +1526,97 @@ static std::string opKpiece(const Toks &t, std::string &playLine)
     return showSolution(sys, pdef, st, *si) + " | " + planner->dump(sys);
 }
 
+// control::PDST with its queue, BSP and RNG reachable (all protected)
+class PDSTx : public oc::PDST
+{
+public:
+    using oc::PDST::PDST;
+    void seedRng(std::uint_fast32_t s)
+    {
+        rng_.setLocalSeed(s);
+    }
+    // motions in the order of the priority queue's array (the heap layout itself is compared)
+    std::string dump(const Sys &sys) const
+    {
+        std::vector<Motion *> ms;
+        priorityQueue_.getContent(ms);
+        std::map<const Motion *, size_t> idx;
+        for (size_t j = 0; j < ms.size(); ++j)
+            idx[ms[j]] = j;
+        std::string s = "pdst n=" + std::to_string(ms.size()) + " cells=" + std::to_string(bsp_ ? bsp_->size() : 0) +
+                        " iteration=" + std::to_string(iteration_) + " last=" +
+                        (lastGoalMotion_ ? std::to_string(idx.at(lastGoalMotion_)) : std::string("-"));
+        for (const Motion *m : ms)
+        {
+            s += " [" + showSt(sys, m->startState_) + " ; " + showSt(sys, m->endState_) + " ; " +
+                 (m->control_ ? showCt(m->control_) : std::string("-")) + " ; " + std::to_string(m->controlDuration_) + " ; " +
+                 vp::bits(m->priority_) + " ; " + vp::bits(m->cell_->volume_) + " ; ";
+            s += m->parent_ ? std::to_string(idx.at(m->parent_)) : std::string("-");
+            s += std::string(" ; ") + (m->isSplit_ ? "1" : "0") + "]";
+        }
+        return s;
+    }
+};
+
+// `pdst SYS ENV starts … GOAL k=<n> bias=<bits> seed=<n> iters=<n>` -> result + `pdstplay …`.  The planner's RNG (point
+// inside the selected segment, goal bias) is the RNG model seeded with `lseed`; recorded: uniform state samples (U), goal
+// samples (G), the control sampler's controls and step counts (C/K).
+static std::string opPdst(const Toks &t, std::string &playLine)
+{
+    size_t i = 1;
+    Problem pb;
+    pb.parse(t, i);
+    unsigned k = needKV(t, i, "k");
+    double bias = needKVbits(t, i, "bias");
+    unsigned long seed = needKV(t, i, "seed");
+    unsigned long iters = needKV(t, i, "iters");
+    if (i != t.size() || iters > 2000000 || k < 1 || k > 50 || !(bias >= 0) || !(bias <= 1))
+        throw vp::ParseError("pdst args");
+    const std::uint_fast32_t lseed = (std::uint_fast32_t)((seed * 7919u + 12345u) % 4000000000u + 1u);
+    playLine = "pdstplay";
+    for (size_t j = 1; j < t.size(); ++j)
+        if (t[j].rfind("k=", 0) != 0 && t[j].rfind("seed=", 0) != 0 && t[j].rfind("iters=", 0) != 0)
+            playLine += " " + t[j];
+    playLine += " lseed=" + std::to_string(lseed);
+    ompl::RNG::setSeed(seed + 1);
+    Events ev;
+    const Sys &sys = pb.sys;
+    std::shared_ptr<SysPropagator> prop;
+    auto si = makeSI(sys, prop);
+    si->setStateValidityChecker(std::make_shared<EnvValidity>(si, pb.env));
+    sys.cspace->setControlSamplerAllocator([&ev](const oc::ControlSpace *cs) {
+        return std::make_shared<RecControlSampler>(cs, cs->allocDefaultControlSampler(), &ev);
+    });
+    si->setDirectedControlSamplerAllocator(
+        [k](const oc::SpaceInformation *s) { return std::make_shared<oc::SimpleDirectedControlSampler>(s, k); });
+    si->setup();
+    auto pdef = std::make_shared<ob::ProblemDefinition>(si);
+    ob::State *s0 = si->allocState();
+    for (const auto &st0 : pb.starts)
+    {
+        sys.space->copyFromReals(s0, st0);
+        pdef->addStartState(s0);
+    }
+    si->freeState(s0);
+    pdef->setGoal(makeGoal(pb.goalKind, si, pb.goal, pb.thr, &ev));
+    auto planner = std::make_shared<PDSTx>(si);
+    planner->setProjectionEvaluator(std::make_shared<XYProjection>(sys.space, sys, 1.0));
+    planner->setGoalBias(bias);
+    planner->setProblemDefinition(pdef);
+    planner->setup();
+    planner->seedRng(lseed);
+    // installed after setup (see opRrtPlay): the recording state sampler
+    sys.space->setStateSamplerAllocator([&ev](const ob::StateSpace *sp) {
+        return std::make_shared<RecStateSampler>(sp, sp->allocDefaultStateSampler(), &ev);
+    });
+    ev.log.clear();
+    auto cnt = std::make_shared<vp::EvalCounter>();
+    cnt->fireAt = iters;
+    ob::PlannerStatus st = planner->solve(vp::evalCountPtc(cnt));
+    playLine += " draws" + ev.log;
+    return showSolution(sys, pdef, st, *si) + " | " + planner->dump(sys);
+}
+
 static std::string opPlan(const Toks &t)
 {
     size_t i = 1;
@@ -1397,6 +1626,7 @@ static std::string opPlan(const Toks &t)
     Problem pb;
     pb.parse(t, i);
     unsigned k = needKV(t, i, "k");
+    unsigned steer = needKV(t, i, "steer");
     double bias = needKVbits(t, i, "bias");
     unsigned long seed = needKV(t, i, "seed");
     unsigned long budget = needKV(t, i, "budget");
@@ -1406,6 +1636,7 @@ static std::string opPlan(const Toks &t)
     const Sys &sys = pb.sys;
     std::shared_ptr<SysPropagator> prop;
     auto si = makeSI(sys, prop);
+    prop->steerable = steer != 0;   // canSteer() => allocDirectedControlSampler() hands out a SteeredControlSampler
     si->setStateValidityChecker(std::make_shared<EnvValidity>(si, pb.env));
     // k = 1 is the library default (SimpleDirectedControlSampler with one control sample)
     if (k > 1)
@@ -1511,9 +1742,14 @@ int main()
                 std::cout << opPath(t, 1) << "\n";
             else if (t[0] == "pgeom")
                 std::cout << opPath(t, 2) << "\n";
+            else if (t[0] == "pmisc")
+            {
+                planned = true;
+                std::cout << opPmisc(t) << "\n";
+            }
             else if (t[0] == "stepcount")
                 std::cout << opStepCount(t) << "\n";
-            else if ((t[0] == "rrt" || t[0] == "plan" || t[0] == "sst" || t[0] == "est" || t[0] == "kpiece") && planned)
+            else if ((t[0] == "rrt" || t[0] == "plan" || t[0] == "sst" || t[0] == "est" || t[0] == "kpiece" || t[0] == "pdst" || t[0] == "pmisc") && planned)
                 std::cout << "bad-op\n";  // the global RNG seed can be set once per process
             else if (t[0] == "rrt")
             {
@@ -1524,6 +1760,13 @@ int main()
             }
             else if (t[0] == "rrtplay")
                 std::cout << opRrtPlay(t) << "\n";
+            else if (t[0] == "pdst")
+            {
+                planned = true;
+                std::string play;
+                std::string out = opPdst(t, play);
+                std::cout << out << "\n" << play << "\n";
+            }
             else if (t[0] == "kpiece")
             {
                 planned = true;
